@@ -32,6 +32,7 @@ type obs struct {
 	penaltyBlocks   int
 	status          map[common.Uint256]crstate.ProposalStatus
 	memberState     map[common.Uint168]crstate.MemberState
+	deposit         map[common.Uint168]crstate.DepositInfo // the state's deposit book per CID (C28)
 }
 
 var allStatuses = []crstate.ProposalStatus{crstate.Registered, crstate.CRAgreed, crstate.VoterAgreed, crstate.Finished,
@@ -45,6 +46,12 @@ func (r *run) observe(n *node) *obs {
 	o.lastCommittee = com.GetCROnDutyStartHeight()
 	o.lastVotingStart = com.GetCRVotingStartHeight()
 	o.session = com.GetState().CurrentSession
+	o.deposit = map[common.Uint168]crstate.DepositInfo{}
+	for cid, di := range com.GetState().DepositInfo {
+		if di != nil {
+			o.deposit[cid] = *di
+		}
+	}
 	o.needAppr = com.IsAppropriationNeeded()
 	ms := com.GetAllMembersCopy()
 	o.members = len(ms)
